@@ -32,8 +32,8 @@ func (m *emitMat) SampleSource(gen *rand.Rand, normal, dest C3) C3 {
 	return model3d.NewCoord3DRandUnit()
 }
 func (m *emitMat) SourceDensity(normal, source, dest C3) float64 { return 1 }
-func (m *emitMat) Emission() render3d.Color                       { return m.e }
-func (m *emitMat) Ambient() render3d.Color                        { return render3d.Color{} }
+func (m *emitMat) Emission() render3d.Color                      { return m.e }
+func (m *emitMat) Ambient() render3d.Color                       { return render3d.Color{} }
 
 type pinhole struct {
 	origin  C3
